@@ -1,5 +1,5 @@
 """k3check.py -- shared runner for the crash properties C02 C03 C04 C05 (tie K3)."""
-import os, json, shutil, time
+import os, json, shutil, time, subprocess
 from concurrent.futures import ThreadPoolExecutor
 import vlib, k3lib, k2lib
 
@@ -291,6 +291,144 @@ def failed_install_segment(rep, tier, seed, label='gc-after-failed-install'):
                 rep.violation({'kind': 'K3-' + label + '-' + p['kind'], 'problem': p, 'options': job[3], 'history': job[4], 'fail': job[6]})
     rep.cov['failed_install_runs'] = n
 
+
+
+def orphan_race_segment(rep, tier, seed, label='orphans-vs-background-work-at-open'):
+    """Crash in the middle of a multi-output compaction (orphan tables whose numbers the next incarnation will
+    reuse), then recovery on the PTHREAD build with every unlink delayed: the background compaction that the
+    open schedules runs while the opener is still removing orphans. The recovered store must behave exactly
+    like the single-threaded recovery of the same image: same contents, follow-up writes / flush / compaction /
+    reopen succeed."""
+    out = vlib.scratch_dir(); lib = vlib.build_lib(out, 'nothread')
+    k3 = vlib.build_k3(out, 'nothread', lib=lib); k2 = vlib.build_k2(out, 'nothread', lib=lib)
+    k2p = vlib.build_k2(out, 'pthread')
+    rng = vlib.Rng(seed ^ 0x0F4A)
+    nimg = 0; nfollow = 0
+    for h in range(2 if tier == 'quick' else 8):
+        opts = {'write_buffer': 1048576, 'max_file_size': 1048576, 'reuse_logs': (h + 1) % 2, 'paranoid': 0}
+        ops = ['open']; batches = []
+        for bi in range(rng.range(170, 190)):
+            ups = [(b'm%05d' % bi, '@%d:%d' % (rng.range(1, 40), bi % 256)), (b'k%05d' % rng.below(4000), '@%d:%d' % (rng.range(55000, 65000), rng.below(256)))]
+            ops.append('batch %s 0' % ','.join('p%s:%s' % (k3lib.khex(k), v) for k, v in ups))
+            batches.append({'op_index': len(ops) - 1, 'sync': False, 'updates': ups})
+        ops += ['layout']
+        work = os.path.join(out, 'orph%d' % h); os.makedirs(work, exist_ok=True)
+        rc, o, e, evs, shadow = k3lib.run_traced(k3, os.path.join(work, 'db'), opts, ops, work)
+        calls = k2lib.parse_trace(o)
+        info = k3lib.batch_positions(evs, ops, batches, calls)
+        # crash points: right after the 3rd, 4th, ... table created since the last MANIFEST append
+        runs = [[]]; since = 0
+        for i, ev in enumerate(evs):
+            if ev['k'] == 'W' and ev['name'].startswith('MANIFEST'):
+                since = 0
+                if runs[-1]: runs.append([])
+            elif ev['k'] == 'C' and ev['name'].endswith('.ldb'):
+                since += 1
+                if since >= 3: runs[-1].append(i + 1)
+            elif ev['k'] == 'S' and ev['name'].endswith('.ldb') and since >= 3: runs[-1].append(i + 1)
+        # the more orphans, the more certain that the next incarnation reuses one of their numbers: the last points of each run first
+        pts = sorted(set(p_ for r_ in runs for p_ in r_[-4:]))
+        rest_pts = sorted(set(p_ for r_ in runs for p_ in r_[:-4]))
+        rep.cov.setdefault('orphan_race_candidate_points', []).append(len(pts))
+        lim = 8 if tier == 'quick' else 24
+        while len(pts) > lim: pts.pop(rng.below(len(pts)))
+        while len(pts) < lim and rest_pts: pts.append(rest_pts.pop(rng.below(len(rest_pts))))
+        def one(p):
+            img = k3lib.image_at(evs, shadow, p, 'written')
+            if 'CURRENT' not in img: return None
+            follow = ['batch p66757031:@7:1 1', 'flush', 'compact * *', 'scan -', 'reopen', 'scan -', 'layout']
+            rc1, c1, _ = k3lib.recover_and_read(k2, img, shadow, os.path.join(work, 'i%d_a' % p), opts, followup=follow)
+            rc2, c2, _ = k3lib.recover_and_read(k2p, img, shadow, os.path.join(work, 'i%d_b' % p), opts, followup=follow, env={'K2_UNLINK_DELAY_US': '15000', 'K2_NOEDIT': '1'}, timeout=120)
+            return p, sorted(n for n in img if n.endswith('.ldb')), rc1, c1, rc2, c2
+        with ThreadPoolExecutor(vlib.NCPU) as ex:
+            res = [r for r in ex.map(one, pts) if r]
+        for p, tables, rc1, c1, rc2, c2 in res:
+            rep.evaluated(1); nimg += 1
+            base = [c['ret'] for c in c1]; thr = [c['ret'] for c in c2]
+            where = {'crash_point': p, 'mode': 'written', 'tables_in_image': tables}
+            if rc1 != 0 or len(base) < 10 or base[0] is None or base[0].split(' ')[0] != '0':
+                continue          # the single-threaded recovery is judged by the crash segments, not here
+            names = ['open', 'scan', 'layout', 'batch', 'flush', 'compact', 'scan', 'reopen', 'scan', 'layout']
+            bad = None
+            if rc2 != 0 or len(thr) < 10: bad = 'threaded recovery run ended early (rc=%s, %d calls returned)' % (rc2, len(thr))
+            else:
+                for i in (0, 1, 3, 4, 5, 6, 7, 8):
+                    a = base[i].split(' ')[0] if i in (0, 7) else base[i]
+                    b = (thr[i] or 'none').split(' ')[0] if i in (0, 7) else thr[i]
+                    if a != b:
+                        d = next((j for j in range(min(len(a or ''), len(b or ''))) if a[j] != b[j]), min(len(a or ''), len(b or '')))
+                        a, b = (a or '')[max(0, d - 40):], (b or '')[max(0, d - 40):]
+                        bad = '%s (call %d) returned %s on the threaded build, %s single-threaded' % (names[i], i, (b or '')[:80], (a or '')[:80]); break
+            nfollow += 1
+            rep.nontrivial(('orphan', h, p))
+            if bad:
+                rep.violation({'kind': 'K3-' + label, 'problem': dict(where, detail=bad), 'options': opts, 'history': ops, 'unlink_delay_us': 15000})
+        shutil.rmtree(work, ignore_errors=True)
+    rep.cov['orphan_race_images'] = nimg
+
+
+def log_gc_race_segment(rep, tier, seed, label='log-removed-while-its-memtable-is-unflushed'):
+    """PTHREAD build, one client writing continuously while the background thread flushes and compacts: right
+    after every unlink of a write-ahead log the directory is copied (harness/k2.c K2_SNAP_DIR) -- a process-crash
+    image at the moment a log has just been discarded. Real recovery of every such image must still show every
+    write acknowledged before the unlink (C13: no file that is still needed is removed; C03: process crash)."""
+    out = vlib.scratch_dir()
+    k2 = vlib.build_k2(out, 'nothread'); k2p = vlib.build_k2(out, 'pthread')
+    rng = vlib.Rng(seed ^ 0x106C)
+    nsnap = 0; late = 0
+    def one(h):
+        r_ = vlib.Rng(seed * 1000 + h)
+        opts = {'write_buffer': r_.choice([65536, 131072, 262144]), 'max_file_size': 1048576, 'reuse_logs': h % 2, 'paranoid': 0}
+        ops = ['open']; batches = []
+        for bi in range(r_.range(110, 150)):
+            ups = [(b'm%05d' % bi, '@%d:%d' % (r_.range(1, 40), bi % 256)), (b'k%05d' % r_.below(300), '@%d:%d' % (r_.range(20000, 62000), r_.below(256)))]
+            ops.append('batch %s 0' % ','.join('p%s:%s' % (k3lib.khex(k), v) for k, v in ups))
+            batches.append({'op_index': len(ops) - 1, 'sync': False, 'updates': ups})
+        work = os.path.join(out, 'lg%d' % h); os.makedirs(work, exist_ok=True)
+        snapdir = os.path.join(work, 'snaps'); db = os.path.join(work, 'db')
+        env = dict(os.environ, K2_SNAP_DIR=snapdir, K2_NOEDIT='1')
+        try:
+            r = subprocess.run([k2p, db] + ['%s=%s' % kv for kv in sorted(opts.items())], input=('\n'.join(ops) + '\n').encode(), capture_output=True, timeout=300, env=env)
+        except subprocess.TimeoutExpired:
+            shutil.rmtree(work, ignore_errors=True); return [], [{'detail': 'threaded run did not finish'}], opts, ops
+        calls = k2lib.parse_trace(r.stdout.decode('latin1'))
+        acked = [b for b in batches if b['op_index'] < len(calls) and calls[b['op_index']]['ret'] == '0']
+        res = []; probs = []
+        for sd in sorted(os.listdir(snapdir)) if os.path.isdir(snapdir) else []:
+            done = int(sd.split('_')[1]); img = os.path.join(snapdir, sd)
+            if not os.path.exists(os.path.join(img, 'CURRENT')): continue
+            try:
+                r2 = subprocess.run([k2, img] + ['%s=%s' % kv for kv in sorted(opts.items())], input=b'open\nscan -\n', capture_output=True, timeout=60)
+                c2 = k2lib.parse_trace(r2.stdout.decode('latin1'))
+            except subprocess.TimeoutExpired:
+                c2 = []
+            must = [b for b in acked if b['op_index'] < done]
+            logs = sorted(n for n in os.listdir(img) if n.endswith('.log'))
+            res.append((sd, done, len(must)))
+            if len(c2) < 2 or c2[0]['ret'] is None or c2[0]['ret'].split(' ')[0] != '0':
+                probs.append({'snapshot': sd, 'logs_in_image': logs, 'detail': 'recovery of the image failed: %s' % (c2[0]['ret'] if c2 else 'no output')})
+            else:
+                content, st = k3lib.scan_to_map(c2[1]['ret'])
+                missing = [b['op_index'] for b in must if b['updates'][0][0] not in content]
+                if st != '0': probs.append({'snapshot': sd, 'logs_in_image': logs, 'detail': 'scan status %s' % st})
+                elif missing:
+                    probs.append({'snapshot': sd, 'logs_in_image': logs, 'calls_completed_before_unlink': done,
+                                  'detail': 'writes acknowledged before the log was unlinked are missing after recovery: calls %s' % missing[:10]})
+            shutil.rmtree(img, ignore_errors=True)
+        shutil.rmtree(work, ignore_errors=True)
+        return res, probs, opts, ops
+    hs = list(range(4 if tier == 'quick' else 48))
+    with ThreadPoolExecutor(max(2, vlib.NCPU // 2)) as ex:
+        results = list(ex.map(one, hs))
+    reported = 0
+    for h, (res, probs, opts, ops) in zip(hs, results):
+        rep.evaluated(len(res)); nsnap += len(res)
+        for (sd, done, nm) in res:
+            if nm > 0: rep.nontrivial(('loggc', h, sd))
+        for pb in probs[:1]:
+            if reported < 3:
+                rep.violation({'kind': 'K3-' + label, 'problem': pb, 'options': opts, 'history': ops, 'build': 'pthread', 'history_index': h}); reported += 1
+    rep.cov['log_unlink_images'] = nsnap
 
 
 def replay_crash(rep, path):
